@@ -7,6 +7,7 @@ package shimhist
 import (
 	"bytes"
 	"fmt"
+	"github.com/theparanoids/ysshra/verifharness/lib/frames"
 	"math"
 	"math/rand"
 	"os"
@@ -1466,7 +1467,31 @@ func (e *Engine) keyringLocked() bool {
 func (e *Engine) opForward() {
 	e.tagN++
 	var req []byte
-	switch e.R.Intn(4) {
+	switch e.R.Intn(5) {
+	case 4:
+		// a request the shim does not interpret may still change what the underlying agent holds: an add-identity
+		// (or remove-identity) request relayed raw, as another implementation's client library might send it
+		var pick []*gen.Key
+		for _, k := range e.Mat.Keys {
+			if !k.SK {
+				pick = append(pick, k)
+			}
+		}
+		k := pick[e.R.Intn(len(pick))]
+		fr := frames.Captured(func(a agent.ExtendedAgent) {
+			if e.R.Intn(3) == 0 {
+				a.Remove(k.Pub)
+			} else {
+				a.Add(agent.AddedKey{PrivateKey: k.Priv, Comment: "raw-" + gen.Ident(e.R, 4)})
+			}
+		})
+		if len(fr) == 1 {
+			req = fr[0]
+			e.snapOK = false
+			e.St.Ops["raw add/remove-identity requests relayed"]++
+		} else {
+			req = []byte{200, 1}
+		}
 	case 0:
 		req = append([]byte{200}, []byte(fmt.Sprintf("tag-%d-%s", e.tagN, gen.Ident(e.R, 8)))...)
 	case 1:
